@@ -69,36 +69,44 @@ CHECKS["C14"] = dict(
         "known finding D12 (empty source under a cycling criterion) is matched specifically.",
    technique="Coq proof over hand-written Gallina model + lockstep correspondence (vm_compute) + direct oracle")
 CHECKS["C01"] = dict(
-   text="Executable Gallina model of the multi-process StatefulDataLoader iterator (SdlModel.v: worker machines with position/ended/iteration_end, task dispatch with the "
-        "snapshot flag arithmetic, reorder buffer, retirement of exhausted workers, _take_snapshot with its alignment assertion, state_dict, and construction from a state dict incl. "
-        "the fast-forward path) parameterised by an explicit result-arrival SCHEDULE; theorems in Properties_C01.v. Tied to the code on every run by lockstep correspondence with REAL "
-        "worker processes driven through the same arrival schedule: after every next() the batch, the main-process bookkeeping (_send_idx, _rcvd_idx, _workers_status, "
-        "_tasks_outstanding, _num_yielded, _last_yielded_worker_id) and the abstracted state_dict() are compared with the model; histories are checkpoint/resume chains at every k. "
-        "Direct oracle: resumed stream == uninterrupted suffix incl. the following epoch, also for num_workers=0, persistent workers, shuffle, stateful samplers.",
+   text="Executable Gallina model of the multi-process StatefulDataLoader iterator (SdlModel.v: worker machines, task dispatch with the snapshot flag arithmetic, reorder buffer, retirement of "
+        "exhausted workers, _take_snapshot with its alignment assertion, state_dict, construction from a state dict incl. fast-forward) parameterised by an explicit result-arrival SCHEDULE. "
+        "PROVED in Coq (Properties_C01.v, SdlMapProofs.v) for map-style datasets, every configuration, every snapshot interval, every interruption point k and EVERY pair of arrival schedules: "
+        "state_dict() after k batches loaded into a new iterator yields exactly batches k, k+1, ... then StopIteration; closed under chains of checkpoint/resume of any length (the resumed "
+        "state is again a 'good' state at the same absolute position). For iterable datasets the full statement is in the file as the target and is decided by correspondence. Tied to the code "
+        "on every run by lockstep correspondence with REAL worker processes driven through the same arrival schedule (batch, main-process bookkeeping and abstracted state_dict() after every "
+        "next(); checkpoint/resume chains at every k) and by the direct oracle resumed == uninterrupted suffix incl. the following epoch (also num_workers=0, persistent workers, shuffle, stateful samplers).",
    design="DESIGN.md 4 C01",
-   note="Trusted: Coq kernel + vm_compute; the arrival-scheduling multiprocessing context; harness datasets (user contract: load_state_dict(state_dict()) restores the position before exhaustion); "
-        "persistent_workers, shuffle and num_workers=0 are covered by the oracle only (not in the model); known finding D13 matched specifically.",
+   note="Proof scope: map-style without failing indices (all I, W, P, schedules, k, chains); iterable datasets, num_workers=0, persistent workers and shuffle are covered by correspondence/oracle, "
+        "not by a theorem (partial in that sense). Trusted: Coq kernel + vm_compute; the arrival-scheduling multiprocessing context; harness datasets (user contract: load_state_dict(state_dict()) "
+        "restores the position before exhaustion); known finding D13 matched specifically.",
    technique="Coq proof over hand-written Gallina model + lockstep correspondence under scheduled arrival (vm_compute) + direct oracle")
 CHECKS["C03"] = dict(
-   text="Same SDL model; reference = sampler batches (map-style) / column-major interleave of the per-worker batch lists (iterable); theorems in Properties_C03.v. Correspondence: one epoch "
-        "under random arrival schedules with real workers, every next() compared with the model; oracle: equality with the list reference AND with torch.utils.data.DataLoader on identical "
-        "arguments; free-running multi-epoch runs for num_workers=0, persistent workers, shuffle (permutation), in_order=False (multiset).",
+   text="Same SDL model. PROVED (Properties_C03.v): for map-style datasets, every configuration and EVERY arrival schedule, one epoch is exactly the sampler's batches, each once, in order "
+        "(error outcome at failing batches), then StopIteration, and no internal assertion fires; also from any mid-epoch good state. The iterable statement (column-major interleave of the "
+        "per-worker batch lists) is stated as target. Correspondence: one epoch under random arrival schedules with real workers, every next() compared with the model; oracle: equality with the "
+        "list reference AND with torch.utils.data.DataLoader on identical arguments; free-running multi-epoch runs for num_workers=0, persistent workers incl. abandoned epochs, shuffle "
+        "(permutation), in_order=False (multiset).",
    design="DESIGN.md 4 C03",
-   note="Trusted: Coq kernel + vm_compute; torch.utils.data.DataLoader as the named reference; arrival-scheduling context.",
+   note="Proof scope: map-style (snapshot interval <= 1 or no failing index); iterable datasets by correspondence + torch differential only. Trusted: Coq kernel + vm_compute; "
+        "torch.utils.data.DataLoader as the named reference; arrival-scheduling context.",
    technique="Coq proof over hand-written Gallina model + lockstep correspondence under scheduled arrival + torch differential oracle")
 CHECKS["C05"] = dict(
-   text="Same SDL model, whose next() takes the arrival SCHEDULE as an argument: theorems in Properties_C05.v quantify over all schedules. Correspondence: the same checkpoint/resume history "
-        "is run with REAL worker processes under four adversarial arrival-schedule pairs (always-first, always-last, rotating, random) per configuration and interruption point; streams and "
-        "continuations must coincide across schedules and with the reference; the checkpointed worker positions must equal the items handed to the user (never the prefetched position); "
-        "each realised schedule is replayed in the model and compared step by step.",
+   text="Same SDL model, whose next() takes the arrival SCHEDULE as an argument. PROVED (Properties_C05.v) for map-style datasets: any two schedules give the same epoch; the continuation "
+        "from a checkpoint after k batches is independent of the schedule it was taken under and of the schedule it is resumed under (all k, all schedule pairs). Correspondence: the same "
+        "checkpoint/resume history is run with REAL worker processes under four adversarial arrival-schedule pairs (always-first, always-last, rotating, random) per configuration and "
+        "interruption point; streams and continuations must coincide across schedules and with the reference; checkpointed worker positions must equal the items handed to the user (never the "
+        "prefetched position); each realised schedule is replayed in the model and compared step by step.",
    design="DESIGN.md 4 C05",
-   note="Trusted: Coq kernel + vm_compute; arrival-scheduling context (every arrival order consistent with per-worker FIFO is realisable and is a model schedule).",
+   note="Proof scope: map-style; iterable datasets (where worker state deltas must be applied at yield time, not at arrival) by adversarial-schedule correspondence. Trusted: Coq kernel + "
+        "vm_compute; arrival-scheduling context (every arrival order consistent with per-worker FIFO is realisable and is a model schedule).",
    technique="Coq proof over hand-written Gallina model (schedule-quantified) + lockstep correspondence under adversarial scheduled arrival + direct oracle")
 CHECKS["C10"] = dict(
-   text="Same SDL model with in-band error results (RErr: the failing task consumes a slot, nothing else advances); theorems in Properties_C10.v. Correspondence: map-style datasets with "
-        "every kind of failing-index subset under random arrival schedules with real workers, consumer catches and continues, every next() compared with the model; oracle: the consumer-visible "
-        "sequence equals the reference with the same exception type at exactly the failing batches; also num_workers=0, collate_fn errors, worker_init_fn errors (delivered at iterator creation), "
-        "iterator-class IterableDatasets.",
+   text="Same SDL model with in-band error results (RErr: the failing task consumes a slot, nothing else advances). PROVED (Properties_C10.v) for map-style datasets with snapshot interval <= 1, "
+        "ANY set of failing indices and EVERY schedule: the k-th outcome is an error exactly when batch k contains a failing index, every other outcome is that batch, nothing is lost after an "
+        "error, StopIteration follows the last batch. The statement for all intervals is REFUTED for the faithful model by a machine-checked witness (known finding D9). Correspondence: "
+        "failing-index subsets under random arrival schedules with real workers, consumer catches and continues, every next() compared with the model; oracle: consumer-visible sequence == "
+        "reference with the same exception type at exactly the failing batches; also num_workers=0, collate_fn errors, worker_init_fn errors, iterator-class IterableDatasets.",
    design="DESIGN.md 4 C10",
    note="Trusted: Coq kernel + vm_compute; arrival-scheduling context; known finding D9 (snapshot interval > 1 after an error) is reproduced by the faithful model (OAssert) and matched specifically.",
    technique="Coq proof over hand-written Gallina model + lockstep correspondence under scheduled arrival + direct oracle")
